@@ -9,7 +9,9 @@ stationary blocks, move counts) written here independently of armi.
 Initial states: cores {third-core 7, full-core 7, 3-assembly mini cores with an empty location}
 x spent-fuel tracking {on, off} x stationary blocks {none, GRID_PLATE in every design at the same
 axial index, GRID_PLATE at differing axial indices ("mixed": swaps between the designs must be
-refused)} x pool {declared in the blueprints, not declared (ARMI adds its default pool)}.
+refused)} x pool {declared in the blueprints and empty, declared and already holding two assemblies from the
+blueprints (so that a stored-for-discharged swap is enabled from the start in every tracking mode),
+not declared (ARMI adds its default pool)}.
 
 Alphabet (ops are JSON lists, locations are indices into the init's location universe):
   ["swap", i, j]        FuelHandler.swapAssemblies(a_i, a_j)
@@ -47,6 +49,8 @@ SPECIFIER = {"IC": "igniter fuel", "OC": "outer fuel"}
 MASS_RTOL = 1e-10
 # a cell that is not in the represented third of a third-core hex grid (polar angle 180 degrees)
 OUTSIDE_THIRD = (-2, 1)
+# assemblies a "filled" pool holds from the blueprints: (pool cell, specifier), labels p0, p1
+POOL_FILL = [([0, 0], "IC"), ([1, 0], "OC")]
 
 # name -> hex_spec arguments, occupied cells (None = every in-domain cell), extra empty locations
 CORES = {
@@ -70,6 +74,7 @@ def make_spec(init):
         cells=[tuple(x) for x in c["cells"]] if c["cells"] else None,
         grid_plate=init["stat"] != "none",
         sfp=bool(init.get("sfp", True)),
+        sfp_contents={tuple(c): sp for c, sp in POOL_FILL} if init.get("poolfill") else None,
     )
     if init["stat"] == "mixed":
         # the outer design carries its grid plate one level higher: layouts differ between designs
@@ -116,6 +121,13 @@ class Model:
                 self.loc[idx] = label
                 self.stat[("L", idx)] = self.stat.pop(("A", label))
                 self.moves[label] = 1  # placed once when the core was loaded
+        self.pool_cells = {}
+        if init.get("poolfill"):
+            for n, (cell, sp) in enumerate(POOL_FILL):
+                label = "p%d" % n
+                self._new(label, SPECIFIER[sp])  # never placed in the core: 0 moves
+                self.pool.append(label)
+                self.pool_cells[label] = list(cell)
 
     def layout(self, dname):
         return [k for k, bn in enumerate(self.blocks[dname]) if self.flags and bn == "grid plate"]
@@ -221,7 +233,7 @@ class Model:
 
     # canonical description of a label: fresh assemblies of one design are interchangeable
     def desc(self, label):
-        return label if label.startswith("a") else "F:" + ("IC" if self.design[label] == DESIGNS[0] else "OC")
+        return label if label[0] in "ap" else "F:" + ("IC" if self.design[label] == DESIGNS[0] else "OC")
 
     def bdesc(self, bl):
         label, k = bl.rsplit(".", 1)
@@ -250,7 +262,7 @@ def enabled_ops(m, init):
         ops.append(["addocc", al["fresh"][0], i])
     if al.get("addout") and CORES[init["core"]]["third"]:
         ops.append(["addout", al["fresh"][0]])
-    for p in m.pool[: al.get("pool", 99)]:
+    for p in m.pool[-al.get("pool", 99) :]:
         for i in occ:
             ops.append(["dpool", p, i])
     tr = al.get("triples", "none")
@@ -355,6 +367,14 @@ def build_state(init):
             raise RuntimeError("build: %s is not a %s as specified" % (label, want))
     if len(s.core) != len(m.loc):
         raise RuntimeError("build: core has %d children, spec %d" % (len(s.core), len(m.loc)))
+    for label in m.pool:
+        cell = tuple(m.pool_cells[label])
+        hits = [a for a in s.sfp if (int(a.spatialLocator.i), int(a.spatialLocator.j)) == cell]
+        if len(hits) != 1 or hits[0].getType() != m.design[label]:
+            raise RuntimeError("build: pool cell %s does not hold one %s" % (cell, m.design[label]))
+        _register(s, hits[0], label)
+    if len(s.sfp) != len(m.pool):
+        raise RuntimeError("build: pool has %d children, spec %d" % (len(s.sfp), len(m.pool)))
     if bool(flags) != bool(s.core.stationaryBlockFlagsList) or bool(s.core._trackAssems) != bool(init["track"]):
         raise RuntimeError("build: settings did not reach the core")
     return s, m
@@ -468,7 +488,7 @@ def _aftermath(s, m, op):
 
 
 def _ini(init):
-    return "%s/track=%s/stationary=%s/%s" % (init["core"], "on" if init["track"] else "off", init["stat"], "declared pool" if init.get("sfp", True) else "default pool")
+    return "%s/track=%s/stationary=%s/%s" % (init["core"], "on" if init["track"] else "off", init["stat"], ("filled pool" if init.get("poolfill") else "declared pool") if init.get("sfp", True) else "default pool")
 
 
 # ---------------------------------------------------------------------------------------------
@@ -582,9 +602,30 @@ def check(s, m, init, hist):
 
     # 4. lookup by name ----------------------------------------------------------------------
     names = {}
+    unreg = []
     for label in m.live():
         a = s.obj[label]
         n = a.getName()
+        if label[0] == "p" and m.moves[label] == 0 and label in m.pool:
+            # loaded into the pool by the blueprints and never touched since: one mechanism, one key
+            if n in names:
+                v("assembly-name-collision", "%s and %s are both named %s" % (names[n], label, n))
+            names[n] = label
+            miss = []
+            try:
+                if core.getAssemblyByName(n) is not a:
+                    miss.append("assembly -> another object")
+            except KeyError:
+                miss.append("assembly")
+            for b in a:
+                try:
+                    if core.getBlockByName(b.getName()) is not b:
+                        miss.append("block %s -> another object" % lab(b))
+                except KeyError:
+                    miss.append("block " + lab(b))
+            if miss:
+                unreg.append("%s (%s)" % (label, ", ".join(miss)))
+            continue
         if n in names:
             v("assembly-name-collision", "%s and %s are both named %s" % (names[n], label, n))
         names[n] = label
@@ -603,6 +644,8 @@ def check(s, m, init, hist):
                     v("block-lookup-wrong-object/%s" % where, "getBlockByName(%r) -> %s, block %s of %s carries that name" % (bn, lab(o), lab(b), label))
             except KeyError:
                 v("block-lookup-misses-%s-block" % where, "getBlockByName(<current name of %s>) raises KeyError; the block is in %s which is in the %s" % (lab(b), label, where))
+    if unreg:
+        bad.append(("lookup-misses-blueprint-pool-assembly", "assemblies the blueprints put into the pool are not found by getAssemblyByName/getBlockByName under their current names (KeyError): %s" % "; ".join(unreg)))
     bnames = {}
     for label in m.live():
         for b in s.obj[label]:
@@ -707,7 +750,8 @@ def expand(item):
             seen.add(x["key"])
             uniq.append(x)
     res = {"canon": canon(s, m), "full": None, "viols": uniq, "ops": [], "out": out, "terminal": terminal}
-    if not uniq:
+    if not terminal:
+        # bfs extends the state only if it has no violation or nothing but soft / known ones
         res["full"] = full_obs(s, m)
         res["ops"] = enabled_ops(m, init)
     return res
@@ -732,10 +776,10 @@ def inits(ctx):
     seed = ctx.seed
     out = []
 
-    def add(core, track, stat, depth, sfp=True, **alpha):
+    def add(core, track, stat, depth, pool="filled", **alpha):
         al = {"fresh": [0, 1], "triples": "focus", "addocc": 2, "addout": 1, "pool": 2}
         al.update(alpha)
-        out.append(({"core": core, "track": track, "stat": stat, "sfp": sfp, "seed": seed, "alpha": al}, depth))
+        out.append(({"core": core, "track": track, "stat": stat, "sfp": pool != "default", "poolfill": pool == "filled", "seed": seed, "alpha": al}, depth))
 
     if ctx.quick:
         # breadth: every 7-assembly core x tracking x stationary setting, every pair of locations
@@ -745,15 +789,15 @@ def inits(ctx):
                     add(c, track, stat, 1)
         for track in (True, False):
             add("third7", track, "mixed", 1)
-            add("third7", track, "none", 1, sfp=False, triples="none", addocc=0)
-        # depth on the mini cores
-        for c in ("third3", "full3"):
-            for track in (True, False):
-                for stat in ("none", "gp"):
-                    add(c, track, stat, 2, triples="rot", addocc=1)
-        add("third3", True, "mixed", 2, triples="rot", addocc=1)
-        add("third3", True, "gp", 3, fresh=[0], triples="rot", addocc=0, addout=0, pool=1)
-        add("third3", False, "gp", 3, fresh=[0], triples="rot", addocc=0, addout=0, pool=1)
+            add("third7", track, "none", 1, pool="default", triples="none", addocc=0)
+        # every (tracking x stationary x pool) configuration to depth 2 on the third-core mini core
+        for track in (True, False):
+            for stat in ("none", "gp", "mixed"):
+                for pool in ("empty", "filled"):
+                    add("third3", track, stat, 2, pool=pool, fresh=[0, 1] if stat == "mixed" else [0], triples="rot", addocc=1)
+            for stat in ("none", "gp"):
+                add("third3", track, stat, 2, pool="default", fresh=[0], triples="rot", addocc=1)
+        add("third3", True, "gp", 3, pool="empty", fresh=[0], triples="none", addocc=0, addout=0, pool_=1)
     else:
         for c in ("third7", "full7"):
             for track in (True, False):
@@ -761,30 +805,91 @@ def inits(ctx):
                     add(c, track, stat, 2)
         for track in (True, False):
             add("third7", track, "mixed", 2)
-            add("third7", track, "none", 1, sfp=False, triples="all")
-            add("third7", track, "gp", 1, triples="all")
-            add("full7", track, "gp", 1, triples="all")
+            add("third7", track, "none", 1, pool="default", triples="all")
+            add("third7", track, "gp", 1, pool="empty", triples="all")
+            add("full7", track, "gp", 1, pool="empty", triples="all")
         for c in ("third3", "full3"):
             for track in (True, False):
                 for stat in ("none", "gp", "mixed"):
-                    add(c, track, stat, 3, triples="rot", addocc=1)
+                    add(c, track, stat, 3, pool="empty" if c == "full3" else "filled", triples="rot", addocc=1)
         for track in (True, False):
             for stat in ("none", "gp", "mixed"):
                 add("third4", track, stat, 2, addocc=1)
-            add("third3", track, "none", 2, sfp=False, triples="rot", addocc=1)
-        for track, stat in ((True, "gp"), (False, "gp"), (True, "none")):
-            add("third3", track, stat, 4, fresh=[0], triples="rot", addocc=0, addout=0, pool=1)
+                add("third3", track, stat, 2, pool="empty", triples="rot", addocc=1)
+            for stat in ("none", "gp", "mixed"):
+                add("third3", track, stat, 2, pool="default", triples="rot", addocc=1)
+        for track, stat, pool in ((True, "gp", "empty"), (False, "gp", "filled"), (True, "none", "filled")):
+            add("third3", track, stat, 4, pool=pool, fresh=[0], triples="rot", addocc=0, addout=0, pool_=1)
+    for init, _d in out:  # 'pool' is the pool kind in add(); the alphabet bound is spelled pool_ there
+        if "pool_" in init["alpha"]:
+            init["alpha"]["pool"] = init["alpha"].pop("pool_")
     return out
+
+
+def config_of(init):
+    return "track=%s/stationary=%s/pool=%s" % ("on" if init["track"] else "off", init["stat"], ("filled" if init.get("poolfill") else "empty") if init.get("sfp", True) else "default")
+
+
+# a state whose only violation is this one (present from the initial state on) is still extended
+SOFT_KEYS = [K + "lookup-misses-blueprint-pool-assembly"]
+OPKINDS = ["swap", "casc", "dfresh", "dpool", "remove", "add", "addocc", "addout"]
+
+
+def alphabet_matrix(plan):
+    """Which operation kinds are enabled (and with which expected outcome) as the first or second
+    operation of a history, per (tracking x stationary x pool) configuration. Computed with the
+    reference model alone over the same plan (an execution whose real outcome differs from the
+    model's is a violation, so this is what the search executes while it is green)."""
+    mat = {}
+    for init, depth in plan:
+        spec = make_spec(init)
+        row = mat.setdefault(config_of(init), {})
+        seen = set()
+        frontier = [[]]
+        for d in range(min(depth, 2)):
+            nxt = []
+            for hist in frontier:
+                m = Model(init, spec)
+                ok = True
+                for op in hist:
+                    ok = ok and _model_step(m, op) == "ok"
+                key = json.dumps([sorted(m.loc.items()), m.pool, sorted(m.purged), sorted((str(k), v) for k, v in m.stat.items())])
+                if key in seen:
+                    continue
+                seen.add(key)
+                for op in enabled_ops(m, init):
+                    exp = m.expect(op)
+                    cell = row.setdefault(op[0], {})
+                    cell[exp] = cell.get(exp, 0) + 1
+                    nxt.append(hist + [op])
+            frontier = nxt
+    missing = {cfg: [k for k in OPKINDS if not row.get(k, {}).get("ok") and not (k in ("addocc", "addout") and row.get(k))] for cfg, row in mat.items()}
+    return mat, {cfg: ks for cfg, ks in missing.items() if ks}
+
+
+def _model_step(m, op):
+    exp = m.expect(op)
+    inc = None
+    if op[0] in ("dfresh", "add", "addocc", "addout"):
+        inc = m.fresh_label(op[1])
+    elif op[0] == "dpool":
+        inc = op[1]
+    if exp == "ok":
+        m.commit(op, inc)
+    elif inc is not None and op[0] != "dpool":
+        m.forget(inc)
+    return exp
 
 
 def run(ctx):
     total = {}
     plan = inits(ctx)
+    mat, notenabled = alphabet_matrix(plan)
     by_depth = {}
     for init, depth in plan:
         by_depth.setdefault(depth, []).append(init)
     for depth in sorted(by_depth):
-        st = explore.bfs(ctx, MOD, by_depth[depth], depth=depth)
+        st = explore.bfs(ctx, MOD, by_depth[depth], depth=depth, soft_keys=SOFT_KEYS)
         explore.merge_stats(total, st)
         for o, n in st["outcomes"].items():
             ctx.count("outcome:" + o, n)
@@ -796,6 +901,8 @@ def run(ctx):
         extra={
             "plan": [{"init": {k: v for k, v in i.items() if k != "seed"}, "depth": d} for i, d in plan],
             "depth_max": max(d for _i, d in plan),
+            "alphabet_enabled_within_depth2": mat,
+            "alphabet_not_enabled_within_depth2": notenabled,
             # every history up to the stated depth was executed (bounded-exhaustive), but the reachable
             # state space is not closed at that depth: new canonical states still appear at the last level
             "exhaustive": False,
